@@ -247,6 +247,11 @@ type Runtime struct {
 	closerTask  []int
 	Panics      []string
 	lockDead    string
+	// colCache: the column descriptions of all statement programs, built before
+	// the server starts and only read afterwards (keyed by the program's column
+	// list); shared by all connections like a real handler's table descriptions
+	colCache map[*ColSpec]wire.Columns
+	fallback *Program
 }
 
 type mwKey int
@@ -356,6 +361,11 @@ func (rt *Runtime) validator(ctx context.Context, database, username, password s
 	c.retain("password", password)
 	c.retain("auth-user", username)
 	c.retain("auth-db", database)
+	if rt.C.Server.ValCtxDone && out != "accept" {
+		lookup, cancel := context.WithCancel(ctx)
+		cancel()
+		ctx = lookup
+	}
 	switch out {
 	case "accept":
 		return ctx, true, nil
@@ -517,9 +527,26 @@ func (rt *Runtime) buildServer() (*wire.Server, error) {
 	if !cfg.NilParse {
 		parse = rt.parseFn
 	}
+	sibling := func() {
+		own := wire.SessionMiddleware(func(ctx context.Context) (context.Context, error) {
+			// (the sibling never serves: if this runs, it runs on a connection of the
+			// server under test)
+			if a, ok := wire.RemoteAddress(ctx).(SimAddr); ok && a.ID >= 0 && a.ID < len(rt.Conns) {
+				rt.Conns[a.ID].rec("mw", "sibling server's middleware")
+			}
+			return context.WithValue(ctx, mwKey(1000), 1), nil
+		})
+		_, _ = wire.NewServer(parse, append([]wire.OptionFn{own}, opts...)...)
+	}
+	if cfg.Sibling == "before" {
+		sibling()
+	}
 	srv, err := wire.NewServer(parse, opts...)
 	if err == nil && lateTLS != nil {
 		lateTLS(srv)
+	}
+	if cfg.Sibling == "after" {
+		sibling()
 	}
 	return srv, err
 }
@@ -578,6 +605,19 @@ func (rt *Runtime) isFrozen() bool { return rt.frozen }
 
 func newRuntime(c *Case, scheduled bool) *Runtime {
 	rt := &Runtime{C: c, K: NewKernel(scheduled), never: make(chan struct{})}
+	rt.colCache = map[*ColSpec]wire.Columns{}
+	rt.fallback = FallbackProgram()
+	rt.colCache[&rt.fallback.Stmts[0].Cols[0]] = buildColumns(rt.fallback.Stmts[0].Cols)
+	for _, p := range c.Programs {
+		if p == nil {
+			continue
+		}
+		for _, sp := range p.Stmts {
+			if sp != nil && len(sp.Cols) > 0 {
+				rt.colCache[&sp.Cols[0]] = buildColumns(sp.Cols)
+			}
+		}
+	}
 	simSleepers.Store(0)
 	rt.acceptTask = rt.K.AddTask("accept")
 	rt.L = newSimListener(rt)
